@@ -49,7 +49,8 @@ Definition one (d : dt string) : dts string := DCons d DNil.
 
 (* two stream values; a par whose right branch holds a stream fold over them written in the
    `(fold $s i (par body (next i)))` idiom, the body of the first iteration containing a nested par and a
-   nested fold without `next`; then a second generation started at a value inside the fold's own range
+   nested fold without `next` and generation updates in the middle of the run (a `new` scope ending);
+   then a second generation started at a value inside the fold's own range
    (recursive stream); then a call *)
 Definition ex_forest : dts string :=
   DCons (DAp (ApRaw [0])) (DCons (DAp (ApRaw [0]))
@@ -57,8 +58,8 @@ Definition ex_forest : dts string :=
                (one (DFold 1
                   (GCons (VPos 0)
                      (BHole DNil
-                        (HParR (DCons (st "b0") (DCons (DPar (one (sc "x")) (one (sc "y")))
-                                   (one (DFold 2 (GCons (VPos 6) (BPlain (one (sc "inner"))) GNil)))))
+                        (HParR (DCons (st "b0") (DCons (DGens [(6, 1); (0, 0)]) (DCons (DPar (one (sc "x")) (one (sc "y")))
+                                   (one (DFold 2 (GCons (VPos 6) (BPlain (one (sc "inner"))) GNil))))))
                                (BHole DNil
                                   (HNextMore (VPos 1)
                                      (BHole DNil (HParR (one (st "b1")) (BHole DNil (HNextEnd (one (sc "last"))) DNil)) DNil)
